@@ -24,6 +24,7 @@ type Frame struct {
 	ifaceMethodNames map[string]bool
 	addrTaken map[types.Object]bool // fields / globals whose address is taken somewhere
 	reflectHits []string
+	litNodes []*fnode
 }
 
 type globalInit struct {
@@ -35,18 +36,22 @@ type globalInit struct {
 
 type wset struct {
 	vars  map[*types.Var]bool // fields and globals written
+	fresh map[*types.Var]bool // fields written only on storage the writer created itself (see framefresh.go)
 	maps  map[string]bool     // map type ids written (insert/delete)
 	ptrs  map[string]bool     // pointee type ids written through *p
 	all   bool
 }
 
 func newWset() *wset {
-	return &wset{vars: map[*types.Var]bool{}, maps: map[string]bool{}, ptrs: map[string]bool{}}
+	return &wset{vars: map[*types.Var]bool{}, fresh: map[*types.Var]bool{}, maps: map[string]bool{}, ptrs: map[string]bool{}}
 }
 
 func (w *wset) add(o *wset) {
 	for k := range o.vars {
 		w.vars[k] = true
+	}
+	for k := range o.fresh {
+		w.fresh[k] = true
 	}
 	for k := range o.maps {
 		w.maps[k] = true
@@ -62,7 +67,8 @@ func (w *wset) add(o *wset) {
 type fnode struct {
 	fn       *types.Func
 	callees  []*types.Func // static module callees
-	hasLit   bool          // contains a function literal (which may escape and be called dynamically)
+	isLit    bool          // a function literal (fn = enclosing function, for naming)
+	lits     []*fnode      // function literals inside this function
 	dynamic  bool          // has interface-method or func-value call
 	external bool          // calls out of the module
 	writes   *wset
@@ -150,7 +156,7 @@ func BuildFrame(prog *Program) *Frame {
 	// escaping set
 	for fn, n := range f.nodes {
 		sig := fn.Type().(*types.Signature)
-		if valueTaken[fn] || n.hasLit {
+		if valueTaken[fn] {
 			f.esc = append(f.esc, n)
 			continue
 		}
@@ -163,6 +169,7 @@ func BuildFrame(prog *Program) *Frame {
 		}
 	}
 	sort.Slice(f.esc, func(i, j int) bool { return f.esc[i].fn.FullName() < f.esc[j].fn.FullName() })
+	f.esc = append(f.esc, f.litNodes...)
 	// closure from E
 	f.reachE = map[*fnode]bool{}
 	f.wE = newWset()
@@ -183,6 +190,12 @@ func BuildFrame(prog *Program) *Frame {
 				stack = append(stack, cn)
 			}
 		}
+		for _, l := range n.lits {
+			if !f.reachE[l] {
+				f.reachE[l] = true
+				stack = append(stack, l)
+			}
+		}
 	}
 	return f
 }
@@ -191,6 +204,7 @@ func BuildFrame(prog *Program) *Frame {
 func (f *Frame) scanBody(pk *packages.Package, n *fnode, body ast.Node, valueTaken map[*types.Func]bool) {
 	info := pk.TypesInfo
 	callFuns := map[ast.Expr]bool{}
+	fl := freshLocals(info, body)
 	var recordWrite func(e ast.Expr)
 	recordWrite = func(e ast.Expr) {
 		if n == nil {
@@ -204,7 +218,11 @@ func (f *Frame) scanBody(pk *packages.Package, n *fnode, body ast.Node, valueTak
 		case *ast.SelectorExpr:
 			if sel, ok := info.Selections[x]; ok && sel.Kind() == types.FieldVal {
 				if v, ok := sel.Obj().(*types.Var); ok {
-					n.writes.vars[v.Origin()] = true
+					if freshBase(info, fl, x.X) && len(sel.Index()) == 1 {
+						n.writes.fresh[v.Origin()] = true
+					} else {
+						n.writes.vars[v.Origin()] = true
+					}
 				}
 			} else if v, ok := info.Uses[x.Sel].(*types.Var); ok && v.Pkg() != nil && v.Parent() == v.Pkg().Scope() {
 				n.writes.vars[v] = true
@@ -263,7 +281,7 @@ func (f *Frame) scanBody(pk *packages.Package, n *fnode, body ast.Node, valueTak
 					n.external = true
 					// pointers to module structs handed to external code may be filled by reflection
 					for _, a := range x.Args {
-						f.reflectWrite(info, n, a)
+						f.reflectWrite(info, fl, n, a)
 					}
 				}
 			default:
@@ -278,9 +296,16 @@ func (f *Frame) scanBody(pk *packages.Package, n *fnode, body ast.Node, valueTak
 				}
 			}
 		case *ast.FuncLit:
+			// a function literal is its own node: it may escape and be called by anyone (it is in E),
+			// and the enclosing function may call it (edge), but the enclosing function does not become escaping
+			child := &fnode{writes: newWset(), isLit: true}
 			if n != nil {
-				n.hasLit = true
+				child.fn = n.fn
+				n.lits = append(n.lits, child)
 			}
+			f.litNodes = append(f.litNodes, child)
+			f.scanBody(pk, child, x.Body, valueTaken)
+			return false
 		case *ast.IncDecStmt:
 			recordWrite(x.X)
 		case *ast.RangeStmt:
@@ -339,20 +364,27 @@ func (f *Frame) scanBody(pk *packages.Package, n *fnode, body ast.Node, valueTak
 }
 
 // reflectWrite: &T or *T argument to an external function: exported fields of T may be set by reflection.
-func (f *Frame) reflectWrite(info *types.Info, n *fnode, a ast.Expr) {
+func (f *Frame) reflectWrite(info *types.Info, fl map[types.Object]bool, n *fnode, a ast.Expr) {
 	t := info.TypeOf(a)
 	if t == nil {
 		return
 	}
 	if p, ok := t.Underlying().(*types.Pointer); ok {
 		if st, ok := p.Elem().Underlying().(*types.Struct); ok {
-			if nt, ok := p.Elem().(*types.Named); ok && inModule(nt.Obj().Pkg()) {
-				for i := 0; i < st.NumFields(); i++ {
-					if st.Field(i).Exported() {
-						n.writes.vars[st.Field(i).Origin()] = true
+			fresh := false
+			switch x := ast.Unparen(a).(type) {
+			case *ast.Ident:
+				fresh = freshBase(info, fl, x)
+			case *ast.UnaryExpr:
+				if x.Op == token.AND {
+					if _, isLit := ast.Unparen(x.X).(*ast.CompositeLit); isLit {
+						fresh = true
+					} else {
+						fresh = freshBase(info, fl, x.X)
 					}
 				}
 			}
+			markReflect(n.writes, st, fresh, 0)
 		}
 	}
 }
@@ -380,6 +412,12 @@ func (f *Frame) writesOf(n *fnode) *wset {
 				stack = append(stack, cn)
 			}
 		}
+		for _, l := range c.lits {
+			if !seen[l] {
+				seen[l] = true
+				stack = append(stack, l)
+			}
+		}
 	}
 	if usesE {
 		w.add(f.wE)
@@ -392,7 +430,7 @@ func (f *Frame) HasWriters(v *types.Var) bool {
 	if f.addrTaken[v] {
 		return true
 	}
-	for _, n := range f.nodes {
+	for _, n := range f.allNodes() {
 		if n.writes.vars[v] {
 			return true
 		}
@@ -400,11 +438,30 @@ func (f *Frame) HasWriters(v *types.Var) bool {
 	return false
 }
 
+// allNodes: declared functions and function literals.
+func (f *Frame) allNodes() []*fnode {
+	out := make([]*fnode, 0, len(f.nodes)+len(f.litNodes))
+	for _, n := range f.nodes {
+		out = append(out, n)
+	}
+	return append(out, f.litNodes...)
+}
+
+func (n *fnode) name() string {
+	if n.fn == nil {
+		return "(package initialiser literal)"
+	}
+	if n.isLit {
+		return shortFuncName(n.fn.FullName()) + "$literal"
+	}
+	return shortFuncName(n.fn.FullName())
+}
+
 func (f *Frame) Writers(v *types.Var) []string {
 	var out []string
-	for _, n := range f.nodes {
-		if n.writes.vars[v] {
-			out = append(out, shortFuncName(n.fn.FullName()))
+	for _, n := range f.allNodes() {
+		if n.writes.vars[v] || n.writes.fresh[v] {
+			out = append(out, n.name())
 		}
 	}
 	sort.Strings(out)
@@ -413,6 +470,18 @@ func (f *Frame) Writers(v *types.Var) []string {
 
 // MayWrite: may a call to fn (nil = dynamic call) modify heap key k of the function being verified?
 func (f *Frame) MayWrite(fc *FnCtx, fn *types.Func, k any) bool {
+	return f.WriteKind(fc, fn, k) != 0
+}
+
+// WriteKind: 0 = the call cannot write k; 1 = it can write k only on objects allocated during the call
+// (fresh-only writers); 2 = it may write k on existing objects.
+func (f *Frame) WriteKind(fc *FnCtx, fn *types.Func, k any) int {
+	b2i := func(b bool) int {
+		if b {
+			return 2
+		}
+		return 0
+	}
 	var w *wset
 	switch {
 	case fn == nil:
@@ -424,7 +493,7 @@ func (f *Frame) MayWrite(fc *FnCtx, fn *types.Func, k any) bool {
 	default:
 		n := f.nodes[fn.Origin()]
 		if n == nil {
-			return true // no body (assembly/linkname): unknown
+			return 2 // no body (assembly/linkname): unknown
 		}
 		w = f.writesOf(n)
 	}
@@ -432,23 +501,29 @@ func (f *Frame) MayWrite(fc *FnCtx, fn *types.Func, k any) bool {
 	case heapKey:
 		switch k.Kind {
 		case "X":
-			return k.ID == "clock"
+			return b2i(k.ID == "clock")
 		case "A":
-			return false
+			return 0
 		case "F":
 			v := fc.keyObj[k]
 			if v == nil {
-				return true
+				return 2
 			}
-			return w.vars[v] || f.addrTaken[v]
+			if w.vars[v] || f.addrTaken[v] {
+				return 2
+			}
+			if w.fresh[v] {
+				return 1
+			}
+			return 0
 		case "M":
 			id := strings.TrimPrefix(strings.TrimPrefix(strings.TrimPrefix(k.ID, "dom_"), "val_"), "len_")
-			return w.maps[id]
+			return b2i(w.maps[id])
 		case "P":
-			return w.ptrs[k.ID] || true
+			return 2
 		}
 	case *types.Var:
-		return w.vars[k] || f.addrTaken[k]
+		return b2i(w.vars[k] || f.addrTaken[k])
 	}
-	return true
+	return 2
 }
